@@ -39,7 +39,7 @@ CHECKS = {
    "DESIGN.md §3 C20", "harness"),
  "C01": ("exploration",
    "property-based testing (proptest) of generated concurrent histories on a deterministic simulated connection (scripted transport, paused-clock runtime with seeded select! order); token-tracing oracle",
-   "1-12 operations on 1-4 cloned handles, a generated global merge order of all response PDUs, unsolicited/late PDUs, entry padding up to 300 KB, id-counter rewinds (ids of completed operations handed out again), read segmentation and scheduler seed; every operation must observe exactly the tokens the server sent under its own wire id, in order, and nobody may see an unsolicited token.",
+   "1-12 operations on 1-4 cloned handles, a generated global merge order of all response PDUs, unsolicited/late PDUs, entry padding up to 300 KB, windows during which the client's socket cannot be written to, long tails of late entries, a lagging consumer with >1000 unread items, id-counter rewinds (ids of completed operations handed out again), read segmentation and scheduler seed; every operation must observe exactly the tokens the server sent under its own wire id, in order, and nobody may see an unsolicited token.",
    "Trusted base: harness SIM (src/sim.rs), response model, tokio paused clock and RngSeed. Schedules are sampled, not enumerated.",
    "DESIGN.md §3 C01, §2.2", "harness"),
  "C02": ("exploration",
@@ -59,13 +59,13 @@ CHECKS = {
    "DESIGN.md §3 C06", "harness"),
  "C10": ("exploration",
    "property-based testing (proptest), model-based: generated server item sequences x stream variant x call script of next/finish/state, every return value compared with a reference state machine on the simulated connection",
-   "Direct, EntriesOnly, user pass-through adapter, both chain orders and search(); scripts that leave the happy path (next after end, early finish, next after finish, double finish), connection cuts; every call result and every state() must equal the reference state machine of DESIGN.md Appendix B.",
+   "Direct, EntriesOnly, user pass-through adapter, both chain orders and search(); scripts that leave the happy path (next after end, early finish, next after finish, double finish), connection cuts, a user adapter that runs a second search configured with adapter_chain_tail(); every call result and every state() must equal the reference state machine of DESIGN.md Appendix B.",
    "Trusted base: reference state machine in harness/src/props/c10.rs, SIM, response model.",
    "DESIGN.md §3 C10, Appendix B", "harness"),
  "C13": ("exploration",
    "property-based testing (proptest) of generated operation histories on the simulated connection; invariant (empty id table, empty routing maps) checked at every virtual-clock quiescent point via the id-table and gauge hooks",
-   "Histories up to 42 steps mixing every operation kind, timeouts with late replies, replies that tie with the deadline (reply and scrub request reach the driver in the same turn; seeded select! order), timeouts while the request is still queued behind a full socket send buffer (answered later or never), direct/adapted/paged searches read to the end or finished early (also while still open at the driver), abandons of finished/timed-out/in-flight/never-issued ids and of mid-stream searches (then finished or dropped), foreign-type responses under a live search id, search() timeouts, operations that fail locally before anything is sent (adapter init, bad filter, value-less add), two operations timing out in the same instant, a paged search finished early while the id of its first page is re-used by an outstanding operation, unsolicited responses and rewinds of the id counter; after every step nothing may remain reserved or routed.",
-   "Trusted base: hooks verif_msgmap/verif_gauges (read-only), SIM quiescence (paused clock).",
+   "Histories up to 42 steps mixing every operation kind, timeouts with late replies, replies that tie with the deadline (reply and scrub request reach the driver in the same turn; seeded select! order), timeouts while the request is still queued behind a full socket send buffer (answered later or never), direct/adapted/paged searches read to the end or finished early (also while still open at the driver), abandons of finished/timed-out/in-flight/never-issued ids and of mid-stream searches (then finished or dropped), foreign-type responses under a live search id, search() timeouts, operations that fail locally before anything is sent (adapter init, bad filter, value-less add), two operations timing out in the same instant, a paged search finished early while the id of its first page is re-used by an outstanding operation, a Notice of Disconnection in the middle of a search, an abandoned operation whose caller notices only after its id was handed out again, unsolicited responses and rewinds of the id counter; after every step nothing may remain reserved or routed.",
+   "A second lane establishes real loopback connections through StartTLS (the driver's single-operation mode) and checks the same invariant. Trusted base: hooks verif_msgmap/verif_gauges (read-only), SIM quiescence (paused clock).",
    "DESIGN.md §3 C13", "harness"),
  "C16": ("exploration",
    "property-based testing (proptest): generated server paginations, cookies, accompanying controls/options and adapter chains on the simulated connection; request stream decoded by the independent RFC 4511 decoder, item stream compared with the concatenation of pages",
@@ -84,7 +84,7 @@ CHECKS = {
    "DESIGN.md §3 C05", "harness"),
  "C12": ("exploration",
    "property-based testing (proptest) of generated timed histories on the paused virtual clock; exact-instant oracle (1 ms granularity), token tracing for late replies, id-table hooks for release/reuse",
-   "Timed and untimed single operations and direct/EntriesOnly/PagedResults searches (paged ones with generated page ends answered by follow-up requests), searches through search() and timed-out streams dropped without finish(), concurrent on clones or chained on ONE handle (so timed-out operations are followed by timed and untimed ones on the same handle), with scripted arrival instants before/after/never relative to the deadline; timeouts must fire at start+T (per next() call for searches, also on page 2+), other and later operations complete with their own tokens, late replies reach nobody, timed-out ids are released, handed out again and work for the operation that gets them; practically infinite timeouts (up to Duration::MAX) still return the response. A second lane queues 0-89 requests behind a driver stuck in a socket write and demands that a timed operation still times out exactly at its deadline.",
+   "Timed and untimed single operations and direct/EntriesOnly/PagedResults searches (paged ones with generated page ends answered by follow-up requests), searches through search(), timeouts set by a user adapter inside start(), timed-out streams dropped without finish(), concurrent on clones or chained on ONE handle (so timed-out operations are followed by timed and untimed ones on the same handle), with scripted arrival instants before/after/never relative to the deadline; timeouts must fire at start+T (per next() call for searches, also on page 2+), other and later operations complete with their own tokens, late replies reach nobody, timed-out ids are released, handed out again and work for the operation that gets them; practically infinite timeouts (up to Duration::MAX) still return the response. A second lane queues 0-89 requests behind a driver stuck in a socket write and demands that a timed operation still times out exactly at its deadline.",
    "Trusted base: tokio paused clock (time advances only at global idleness), SIM, hooks. No ties (|arrival-deadline| >= 2 ms).",
    "DESIGN.md §3 C12", "harness"),
  "C11": ("exploration",
